@@ -10,7 +10,8 @@ PARTIAL = ("proved over the regenerated grammar: directive mode never leaks (C12
            "two runs of a 1300-production PEG); it is covered by the trivia-mutation oracle")
 
 BLANKS = [" ", "\t", "\n", "\r\n", "\f", "  \n\t ", " \f\n", "\n\n\n"]
-COMMENTS = ["/* c */", "/**/", "// c\n", "// a\rb\n", "//\n", " /* a */ // b\n ", "/* * / \n */", "// `not_a_macro \"\n", "/* é */"]
+COMMENTS = ["/* c */", "/**/", "// c\n", "// a\rb\n", "//\n", " /* a */ // b\n ", "/* * / \n */", "// `not_a_macro \"\n", "/* é */",
+            "/*/ c */", "/*/*/", "/*//////*/", "/***/", "/* /* */", "/*\\*/", "// c \\\n", "//*/\n"]
 DIRECTIVES = ["`celldefine\n", "`endcelldefine ", "`default_nettype none\n", "`timescale 1ns/1ps\n", "`unconnected_drive pull0 ",
               "`nounconnected_drive\n", "`line 5 \"f.v\" 0\n", "`define TRIV 1\n", "`undef TRIV\n"]
 
